@@ -42,21 +42,21 @@ func fail(format string, args ...any) {
 
 // Act is one activation of a function body (top-level or inlined).
 type Act struct {
-	u       *Unit
-	fn      *ssa.Function
-	fc      *FuncContract
-	vals    map[ssa.Value]Val
-	depth   int
-	top     *Act
-	entry   *State // state at entry of the top-level function (old)
-	params  []Val
-	free    []Val
-	spec    bool // pure evaluation: no obligations
-	pureFns map[ssa.Value]bool
-	stack   []*ssa.Function
-	loops   []*loopInfo
-	dom     map[*ssa.BasicBlock]map[*ssa.BasicBlock]bool
-	nilOK   []nilSeen
+	u        *Unit
+	fn       *ssa.Function
+	fc       *FuncContract
+	vals     map[ssa.Value]Val
+	depth    int
+	top      *Act
+	entry    *State // state at entry of the top-level function (old)
+	params   []Val
+	free     []Val
+	spec     bool // pure evaluation: no obligations
+	pureFns  map[ssa.Value]bool
+	stack    []*ssa.Function
+	loops    []*loopInfo
+	dom      map[*ssa.BasicBlock]map[*ssa.BasicBlock]bool
+	nilOK    []nilSeen
 	measure0 Term // function-level decreases measure at entry
 	seenObl  map[string]bool
 	qn       *int
@@ -82,6 +82,7 @@ type loopInfo struct {
 	entryPhi map[*ssa.Phi]Val
 	modSt    *State
 	modNames map[string]bool
+	invCache map[ssa.Value]*Val
 }
 
 func (a *Act) pos(p token.Pos) string { return a.u.E.Pos(p) }
@@ -392,14 +393,18 @@ func (a *Act) val(v ssa.Value) Val {
 	return Val{}
 }
 
-func (a *Act) term(v ssa.Value) Term {
-	x := a.val(v)
+// firstClass turns a pointer to a slice element into an opaque first-class reference: what is read
+// through it later is unconstrained (sound for reads); writes through it are not tracked (listed).
+func (a *Act) firstClass(x Val, name string) Val {
 	if x.Loc != nil && x.Loc.RootT != nil && len(x.Loc.Path) == 0 {
-		// pointer to a slice element escapes: it is passed on as an opaque reference; what is read through
-		// it later is unconstrained (sound for reads), writes through it are not tracked (listed assumption)
-		a.u.Trusted["assumed: no writes through the escaping element pointer "+v.Name()+" in "+fnName(a.fn)] = true
-		return x.Loc.Ref
+		a.u.Trusted["assumed: no writes through the escaping element pointer "+name+" in "+fnName(a.fn)] = true
+		return Val{T: x.Loc.Ref, Typ: x.Typ}
 	}
+	return x
+}
+
+func (a *Act) term(v ssa.Value) Term {
+	x := a.firstClass(a.val(v), v.Name())
 	if x.Loc != nil {
 		fail("pointer to %s used as a first-class value (%s in %s)", locDesc(x.Loc), v.Name(), a.fn)
 	}
